@@ -222,6 +222,20 @@ def roundtrip(trials, clause, rounds=300):
                 arguments[name] = a
             free.append(F), pres.append(p), guess.append(None if a is None else a.copy())
         what = 'deconstruct(arguments=%s, constrain=%s)' % ({k: (v.tolist() if hasattr(v, 'tolist') else v) for k, v in arguments.items()}, {k: v.tolist() for k, v in constrain.items()})
+        # every third round: a non-finite value in a FREE entry of an initial guess must be rejected (AssertionError), not passed on
+        cand = [(name, i) for name, n, F, g in zip(names, ns, free, guess) if g is not None for i in range(n) if F[i]]
+        if _ % 3 == 0 and cand:
+            name, i = cand[int(rng.randint(len(cand)))]
+            poisoned = {k: (v.copy() if hasattr(v, 'copy') else v) for k, v in arguments.items()}
+            poisoned[name][i] = [nan, inf, -inf][int(rng.randint(3))]
+            try:
+                _, xbad = solver.System.deconstruct(stub, poisoned, constrain)
+            except AssertionError:
+                pass
+            else:
+                print('deconstruct(arguments=%s, constrain=%s) returned x = %s' % ({k: (v.tolist() if hasattr(v, 'tolist') else v) for k, v in poisoned.items()}, {k: v.tolist() for k, v in constrain.items()}, xbad.tolist()))
+                print('REPLAY: VIOLATION-CONFIRMED a non-finite free entry of the initial guess was not rejected')
+                return
         try:
             args1, x = solver.System.deconstruct(stub, arguments, constrain)
             y = 100. + numpy.arange(len(x))
@@ -314,7 +328,12 @@ def submatrix(clause):
             continue
         A = _lenient_matrix('ok')
         for rows, cols in seq:
-            got = A.submatrix(rows, cols)
+            try:
+                got = A.submatrix(rows, cols)
+            except Exception as e:
+                print('requests %s: submatrix(rows=%s, cols=%s) raised %s: %s' % ([(r.tolist(), c.tolist()) for r, c in seq], rows.tolist(), cols.tolist(), type(e).__name__, e))
+                print('REPLAY: VIOLATION-CONFIRMED the cache guard raised %s (inconsistent cache state)' % type(e).__name__)
+                return
             if got is A:
                 ok = rows.all() and cols.all()
             else:
